@@ -2,7 +2,7 @@
 from engine.anl.locks import guard_info, lock_fields
 from engine.anl.origin import fmt, subterms, strip_bb
 from engine.anl.casts import const_value
-from .common import effectful_calls, S, co, calls_norm, is_call_term, var_name, render_path, phi_alts, atomic_method, ATOMIC_WRITE_METHODS
+from .common import param, effectful_calls, S, co, calls_norm, is_call_term, var_name, render_path, phi_alts, atomic_method, ATOMIC_WRITE_METHODS
 
 EXPLANATION = (
     "Static decision that every table access and every stamp uses *the* stream id: (R02.1) in handle_frame every "
@@ -41,7 +41,7 @@ def _table(ctx, body, o, recv_term, names):
 def r1_table_keys(ctx):
     names = {cls: n[0] for cls, n in lock_fields(ctx.P).items()}
     n_keyed = 0
-    for key, body in ctx.P.bodies.items():
+    for key, body in ctx.P.scan():
         if not key.startswith("session::session::"):
             continue
         o = None
@@ -86,6 +86,11 @@ def r2_stamps(ctx):
             continue
         o = ctx.origins(body)
         snd = calls_norm(body, "UnboundedSender::send")
+        if label == "poll_write" and not snd:
+            dl = calls_norm(body, "Stream::send_data")
+            okd = bool(dl) and var_name(o.of_operand(dl[0].args[0])) == "self" and any(is_call_term(s, "Bytes::copy_from_slice") for s in subterms(o.of_operand(dl[0].args[1])))
+            ctx.ob("R02.2", "poll_write:stamps-self.id", okd, dl[0].site if dl else "", "poll_write delegates to self.send_data(copy of buf), which stamps self.id" if okd else "poll_write neither sends (self.id, data) nor delegates to send_data")
+            continue
         if not ctx.floor("R02.2", "writer_tx.send in %s" % label, len(snd), 1):
             continue
         for c in snd:
@@ -94,7 +99,7 @@ def r2_stamps(ctx):
             ctx.ob("R02.2", "%s:stamps-self.id" % label, ok, c.site, "sends (self.id, data) on self.writer_tx" if ok else "%s sends %s" % (label, fmt(t)[:100]))
     # Stream.id has no writer: no assignment through a projection ending in field `id` in session::stream
     bad = []
-    for key, body in ctx.P.bodies.items():
+    for key, body in ctx.P.scan():
         if not key.startswith(("session::stream::", "<session::stream::")):
             continue
         for bi in body.reachable():
@@ -119,7 +124,7 @@ def r2_stamps(ctx):
 
 def r3_allocator(ctx):
     n = 0
-    for key, body in ctx.P.bodies.items():
+    for key, body in ctx.P.scan():
         if not key.startswith("session::session::"):
             continue
         o = None
@@ -240,11 +245,23 @@ def r5_write_data_frame(ctx):
     fd = calls_norm(body, "Frame::data")
     if not ctx.floor("R02.5", "Frame::data calls in write_data_frame", len(fd), 1):
         return
+    p_sid, p_data = param(body, 1), param(body, 2)
+
+    def is_data(t, depth=0):
+        # the data parameter itself, a local it was moved into, or a piece split off it
+        if var_name(t) == p_data:
+            return True
+        if isinstance(t, tuple) and t[0] == "var" and len(t) > 2 and depth < 3:
+            return any(is_data(a, depth + 1) for a in phi_alts(o.init_of(t[2])))
+        if is_call_term(t, "::split_to", "::split_off") and depth < 3:
+            return is_data(t[3][0], depth + 1)
+        return False
+
     for i, c in enumerate(fd):
         sid = o.of_operand(c.args[0])
         dat = o.of_operand(c.args[1])
-        ok1 = var_name(sid) == "stream_id"
-        ok2 = all(var_name(a) == "data" or (is_call_term(a, "::split_to") and var_name(a[3][0]) == "data") for a in phi_alts(dat))
+        ok1 = var_name(sid) == p_sid
+        ok2 = all(is_data(a) for a in phi_alts(dat))
         ctx.ob("R02.5", "write_data_frame:stamp#%d" % i, ok1 and ok2, c.site, "Frame::data(stream_id, data|data.split_to(..))" if ok1 and ok2 else "Frame::data(%s, %s)" % (fmt(sid)[:40], fmt(dat)[:60]))
     fb = ctx.body("R02.5", "protocol::frame::Frame::data")
     if fb is not None:
@@ -254,13 +271,13 @@ def r5_write_data_frame(ctx):
             for st in fb.blocks[bi]["stmts"]:
                 if st["s"] == "assign" and st["rv"]["r"] == "aggregate" and st["rv"]["kind"].get("adt", "").endswith("frame::Frame"):
                     ops = {f: of.of_operand(op) for f, op in zip(st["rv"]["kind"]["fields"], st["rv"]["ops"])}
-                    ok = var_name(ops.get("stream_id")) == "stream_id" and var_name(ops.get("data")) == "data" and isinstance(ops.get("cmd"), tuple) and ops["cmd"][0] == "agg" and ops["cmd"][2] == "Push"
+                    ok = var_name(ops.get("stream_id")) == param(fb, 0) and var_name(ops.get("data")) == param(fb, 1) and isinstance(ops.get("cmd"), tuple) and ops["cmd"][0] == "agg" and ops["cmd"][2] == "Push"
         if not ok:
             # Frame::data may delegate to with_data
             wd = calls_norm(fb, "Frame::with_data")
             if wd:
                 a = [of.of_operand(x) for x in wd[0].args]
-                ok = isinstance(a[0], tuple) and a[0][0] == "agg" and a[0][2] == "Push" and var_name(a[1]) == "stream_id" and var_name(a[2]) == "data"
+                ok = isinstance(a[0], tuple) and a[0][0] == "agg" and a[0][2] == "Push" and var_name(a[1]) == param(fb, 0) and var_name(a[2]) == param(fb, 1)
         ctx.ob("R02.5", "Frame::data:fields", ok, "", "Frame::data(id, d) = Frame{Push, id, d}" if ok else "Frame::data does not build Frame{Push, stream_id, data}")
 
 
